@@ -29,6 +29,12 @@ def cases(tier, seed):
         yield dict(kind="program", key=key)
     for key, src in P.pair_programs():
         yield dict(kind="program", key=key)
+    # file-level layout variants of the sub-alphabet, and one-line definitions
+    for defs in P.SUB:
+        for layout in P.LAYOUTS[1:]:
+            yield dict(kind="program", key=dict(defs=[defs], layout=layout))
+    for name, _src in P.ONE_LINERS:
+        yield dict(kind="program", key=dict(oneliner=name))
     # fault-point enumeration on a subset
     for defs in P.SUB[:10] if tier == "quick" else P.SUB:
         for cfg in (CONFIGS[0], CONFIGS[6]) if tier == "quick" else CONFIGS[::2]:
@@ -142,7 +148,7 @@ def _doctrans(path, cfg):
 
 
 def header_class(key):
-    hs = sorted({d[1] for d in key["defs"]})
+    hs = sorted({d[1] for d in key.get("defs", [])})
     return ",".join(hs)
 
 
@@ -172,7 +178,9 @@ def check_after(before, after, ctx, rnd):
     ca, cb = comments(before), comments(after)
     if ca != cb:
         v("comments_differ", ca, cb, how="lost" if len(cb) < len(ca) else "gained" if len(cb) > len(ca) else "changed")
-    la, lb = other_lines(before), other_lines(after)
+    if ("\r\n" in before) != ("\r\n" in after):
+        v("line_endings_changed", "CRLF" if "\r\n" in before else "LF", "CRLF" if "\r\n" in after else "LF")
+    la, lb = other_lines(before.replace("\r\n", "\n")), other_lines(after.replace("\r\n", "\n"))
     if la != lb:
         missing = [l for l in la if l not in lb][:3]
         added = [l for l in lb if l not in la][:3]
@@ -188,22 +196,29 @@ def _what(a, b, i):
     return m[-1] if m else "?"
 
 
+def source_of(key):
+    if "oneliner" in key:
+        return P.PRELUDE + dict(P.ONE_LINERS)[key["oneliner"]] + P.POSTLUDE
+    return P.apply_layout(P.render_program(key), key.get("layout", "lf"))
+
+
 def run_program(key, cfgs):
-    src = P.render_program(key)
+    src = source_of(key)
     viol, transitions, outcomes = [], 0, set()
     d = tempfile.mkdtemp(prefix="c07_")
     path = os.path.join(d, "m.py")
     try:
         for cfg in cfgs:
-            ctx = dict(check="doctrans", style=cfg["style"], type_annotations=cfg["type_annotations"], headers=header_class(key), n_defs=len(key["defs"]))
-            with open(path, "wt") as f:
+            ctx = dict(check="doctrans", style=cfg["style"], type_annotations=cfg["type_annotations"], headers=header_class(key), n_defs=len(key.get("defs", [1])),
+                       layout=key.get("layout", key.get("oneliner", "lf")))
+            with open(path, "wt", newline="") as f:
                 f.write(src)
             cur = src
             seen = {src}
             for rnd in (1, 2, 3):
                 transitions += 1
                 outcome, val = run_with_backstop(_doctrans, path, cfg)
-                with open(path, "rt") as f:
+                with open(path, "rt", newline="") as f:
                     after = f.read()
                 if outcome == "exhausted":
                     sig = dict(ctx)
